@@ -361,7 +361,7 @@ func (p *sparser) parseMul() (*SNode, error) {
 
 func (p *sparser) parseUnary() (*SNode, error) {
 	t := p.peek()
-	if t.kind == "op" && (t.text == "!" || t.text == "-" || t.text == "*") {
+	if t.kind == "op" && (t.text == "!" || t.text == "-" || t.text == "*" || t.text == "&") {
 		p.i++
 		x, err := p.parseUnary()
 		if err != nil {
